@@ -52,6 +52,7 @@ var targets = []target{
 	{"node.go", "Node.isRoot"},
 	{"node.go", "Node.findChildByText"},
 	{"file_considerer.go", "fileConsiderer.isFile"},
+	{"simple_tree_verifier.go", "defaultVerifierSimple.handleErr"},
 }
 
 // struct types that are handled through pointers which the translated functions never find nil (a nil
@@ -61,7 +62,8 @@ var derefStructs = map[string]bool{"Node": true}
 
 // struct types whose values are translated (all their fields of supported type; others dropped)
 var structFiles = map[string]string{"Parser": "markdown/parser.go", "Markdown": "markdown/markdown.go", "inputFormatError": "node_generator.go", "nodeGenerator": "node_generator.go",
-	"Node": "node.go", "branch": "node.go", "fileConsiderer": "file_considerer.go"}
+	"Node": "node.go", "branch": "node.go", "fileConsiderer": "file_considerer.go",
+	"defaultVerifierSimple": "simple_tree_verifier.go", "verifyError": "simple_tree_verifier.go"}
 
 type fnInfo struct {
 	decl    *ast.FuncDecl
@@ -541,6 +543,10 @@ func (t *tr) expr(sc *scope, e ast.Expr) string {
 		}
 		return "(Go.slice " + t.expr(sc, x.X) + " " + lo + " " + hi + ")"
 	case *ast.CompositeLit:
+		// an error struct returned by value (`return verifyError{…}` where the result type is error)
+		if idt, ok := x.Type.(*ast.Ident); ok && t.errStruct[idt.Name] {
+			return t.composite(sc, x)
+		}
 		return t.fail(x.Pos(), "composite literal by value")
 	case *ast.CallExpr:
 		kind, name := t.callName(sc, x.Fun)
